@@ -141,7 +141,7 @@ func FuzzSymmetric(f *testing.F) {
 		}
 		fuzzDo(mk("pkcs7-unpad", "data", hx(data), "size", strconv.Itoa(int(alg))))
 		fuzzDo(mk("aescbcaead-new", "variant", strconv.Itoa(int(alg)%4), "key", hx(key)))
-		if len(nonce) == 16 {
+		{
 			fuzzDo(mk("aescbcaead-open", "variant", strconv.Itoa(int(alg)%4), "key", hx(key), "nonce", hx(nonce), "data", hx(data), "aad", hx(tag)))
 			v := int(alg) % 4
 			if len(key) == []int{32, 48, 56, 64}[v] { // a key holder's message: the tag verifies
